@@ -144,7 +144,7 @@ Proof.
   set (act := active_ident c st t) in *.
   destruct (logger_enabled c l) eqn:EN.
   - (* enabled *)
-    unfold emit_with_args in E. destruct (existsb arg_crashes args); [discriminate|]. rewrite EN in E.
+    unfold emit_with_args in E. rewrite EN in E.
     inversion E; subst st'; clear E.
     unfold create_multi, enum_from. fold (children (seq 0 (length (s_procs st))) (rec_created act)).
     rewrite map_children_children. fold (apply_args args (rec_created act)). fold (build act args).
@@ -158,7 +158,7 @@ Proof.
     rewrite <- (count_chunk_toks st1 _ "each_processor_once:exported_count" RE).
     rewrite app_assoc. apply finish_plain. apply count_chunk_plain.
   - (* disabled: a NoopLogRecord, nothing happens *)
-    unfold emit_with_args in E. destruct (existsb arg_crashes args); [discriminate|]. rewrite EN in E.
+    unfold emit_with_args in E. rewrite EN in E.
     inversion E; subst st'; clear E.
     exists ((print_active act ++ counts st) ++ [bar]), x.
     split; [reflexivity|]. split; [|apply R_with_out; assumption].
@@ -212,10 +212,10 @@ Proof.
     assert (NS : nth_error (s_slots st) r = option_map slot_of (nth_error (x_slots x) r)) by (rewrite (R_slots _ _ H); apply nth_error_map').
     rewrite NS in E; clear NS.
     destruct (nth_error (x_slots x) r) as [[| |pids act hist]|] eqn:N; cbn [option_map slot_of] in E; try discriminate.
-    + destruct (arg_crashes a); [discriminate|]. inversion E; subst.
+    + inversion E; subst.
       exists ([] ++ [bar]), x. split; [reflexivity|]. split; [|apply R_with_out; assumption].
       intros. cbn [xstep]. rewrite N. apply finish_nil.
-    + destruct (arg_crashes a); [discriminate|]. inversion E; subst; clear E.
+    + inversion E; subst; clear E.
       exists ([] ++ [bar]), (with_xslots x (set_nth r (XLive pids act (hist ++ [a])) (x_slots x))).
       split; [reflexivity|]. split.
       * intros. cbn [xstep]. rewrite N. apply finish_nil.
@@ -274,8 +274,7 @@ Proof.
       intros. cbn [xstep]. rewrite N.
       rewrite <- (count_chunk_toks _ x (if logger_enabled c l then "null_ignored:exported_count" else "disabled_emits_nothing:exported_count") RE).
       apply finish_plain. apply count_chunk_plain.
-    + destruct (existsb arg_crashes args); [discriminate|].
-      destruct (logger_enabled c l) eqn:EN; [discriminate|]. inversion E; subst; clear E.
+    + destruct (logger_enabled c l) eqn:EN; [discriminate|]. inversion E; subst; clear E.
       assert (RE : R (with_slots st (set_nth r RNoop (s_slots st))) x).
       { replace x with (with_xslots x (x_slots x)) by (destruct x; reflexivity). apply R_slots_upd; [assumption| |apply (R_pids _ _ H)].
         rewrite (R_slots _ _ H). rewrite (set_nth_slot_map r XNoop).
@@ -286,8 +285,7 @@ Proof.
       intros. cbn [xstep]. rewrite N, EN.
       rewrite <- (count_chunk_toks _ x "disabled_emits_nothing:exported_count" RE).
       apply finish_plain. apply count_chunk_plain.
-    + destruct (existsb arg_crashes args); [discriminate|].
-      pose proof (nth_error_Forall _ _ _ _ _ (R_pids _ _ H) N) as [k [Ek Kle]]. subst pids.
+    + pose proof (nth_error_Forall _ _ _ _ _ (R_pids _ _ H) N) as [k [Ek Kle]]. subst pids.
       rewrite map_children_children in E. fold (apply_args args (build act hist)) in E. rewrite <- build_app in E.
       destruct (logger_enabled c l) eqn:EN; inversion E; subst; clear E.
       * set (x1 := with_xslots (emit_to x (seq 0 k) act (hist ++ args) l) (set_nth r XNull (x_slots x))).
@@ -346,7 +344,7 @@ Theorem run_sim : forall c ops st x st',
 Proof.
   induction ops as [|o ops IH]; intros st x st' H E; cbn [lrun] in E.
   - inversion E; subst. exists [], x. split; [rewrite app_nil_r; reflexivity|]. split; [reflexivity | assumption].
-  - destruct (lstep c st o) as [st1| |] eqn:S; try discriminate.
+  - destruct (lstep c st o) as [st1|] eqn:S; try discriminate.
     destruct (step_sim c st x o st1 H S) as [d1 [x1 [O1 [X1 R1]]]].
     destruct (IH st1 x1 st' R1 E) as [d2 [x2 [O2 [X2 R2]]]].
     exists (d1 ++ d2), x2. split; [rewrite O2, O1, app_assoc; reflexivity|]. split; [|assumption].
